@@ -13,6 +13,7 @@ def nStack : Nat := 4
 def nFile : Nat := 6
 def maxIO : Nat := 262144
 def fullLimit : Nat := 1024
+def posLimit : Nat := 1048576
 
 def cfg : Cfg := ⟨CelloGen.File.closeGuarded, CelloGen.File.closeDropsAlways⟩
 
@@ -88,6 +89,8 @@ def writeAfterRead (s : Sys) (o : Nat) : Bool :=
   match s.stream o with | some st => st.last = .rd && !st.eof | none => false
 def readAfterWrite (s : Sys) (o : Nat) : Bool :=
   match s.stream o with | some st => st.last = .wr | none => false
+def tooFar (s : Sys) (o : Nat) : Bool :=
+  match s.stream o with | some st => st.pos > posLimit | none => false
 def onFull (s : Sys) (o : Nat) : Bool :=
   match s.stream o with | some st => st.file = fileFull | none => false
 
@@ -96,6 +99,7 @@ def doWrite (s : Sys) (o : Nat) (op : String) (data : List Byte) : IO Sys := do
   match s.stream o with
   | some st => if st.file = fileFull && st.pos + data.length > fullLimit then IO.println s!"O {op} unsup"; return s
   | none => pure ()
+  if tooFar s o then IO.println s!"O {op} unsup"; return s
   match s.exec o (.op (.write data)) with
   | none => IO.println "O bad-op"; return s
   | some (s', r) =>
@@ -265,7 +269,7 @@ where
         match vs.toInt? with
         | none => bad
         | some v =>
-          if writeAfterRead s o || onFull s o then IO.println "O print unsup"; return (s, i + 1)
+          if writeAfterRead s o || onFull s o || tooFar s o then IO.println "O print unsup"; return (s, i + 1)
           return (← simple s o "print" (.op (.print (printIntFrags v))) (some (fun x => match x with | .int n => toString n | _ => "?")), i + 1)
       | _ => bad
     else if op = "scan" then
